@@ -190,16 +190,16 @@ Print Assumptions C03_hypotheses_nonvacuous.
     rejected by ApplyEvmMsg (gas limit below the intrinsic gas) and executed — and no StateDB is
     left behind. *)
 Theorem C03_message_delivery_is_specification :
-  forall ms st, ms_ptr st = None ->
-  ms_blk (fst (deliver_hist true st ms)) = fst (spec_hist (ms_blk st) ms) /\
-  snd (deliver_hist true st ms) = snd (spec_hist (ms_blk st) ms) /\
-  ms_ptr (fst (deliver_hist true st ms)) = None.
+  forall f ms st, ms_ptr st = None ->
+  ms_blk (fst (deliver_hist true true f st ms)) = fst (spec_hist f (ms_blk st) ms) /\
+  snd (deliver_hist true true f st ms) = snd (spec_hist f (ms_blk st) ms) /\
+  ms_ptr (fst (deliver_hist true true f st ms)) = None.
 Proof. exact deliver_hist_is_spec. Qed.
 Print Assumptions C03_message_delivery_is_specification.
 
 (** A rejected message leaves the block state exactly as it was (its branch is dropped). *)
 Theorem C03_rejected_message_has_no_effect :
-  forall c st m, snd (deliver c st m) = MRejected -> ms_blk (fst (deliver c st m)) = ms_blk st.
+  forall c b f st m, snd (deliver c b f st m) = MRejected -> ms_blk (fst (deliver c b f st m)) = ms_blk st.
 Proof. exact rejected_no_effect. Qed.
 Print Assumptions C03_rejected_message_has_no_effect.
 
@@ -210,16 +210,16 @@ Print Assumptions C03_rejected_message_has_no_effect.
     return value for every call; the block state is the reference's world at the end — and after
     every message (second theorem: every prefix). *)
 Theorem C03_message_history_equals_reference :
-  forall ms k w, kwf k -> weq (world_of k) w -> msgs_wf w ms ->
-  let r := deliver_hist true {| ms_blk := k; ms_ptr := None |} ms in
+  forall f ms k w, kwf k -> weq (world_of k) w -> msgs_wf w ms ->
+  let r := deliver_hist true true f {| ms_blk := k; ms_ptr := None |} ms in
   snd r = snd (ref_hist w ms) /\ weq (world_of (ms_blk (fst r))) (fst (ref_hist w ms)) /\
   kwf (ms_blk (fst r)) /\ ms_ptr (fst r) = None.
 Proof. exact messages_equal_reference. Qed.
 Print Assumptions C03_message_history_equals_reference.
 
 Theorem C03_message_history_equals_reference_after_every_message :
-  forall ms1 ms2 k w, kwf k -> weq (world_of k) w -> msgs_wf w (ms1 ++ ms2) ->
-  weq (world_of (ms_blk (fst (deliver_hist true {| ms_blk := k; ms_ptr := None |} ms1)))) (fst (ref_hist w ms1)).
+  forall f ms1 ms2 k w, kwf k -> weq (world_of k) w -> msgs_wf w (ms1 ++ ms2) ->
+  weq (world_of (ms_blk (fst (deliver_hist true true f {| ms_blk := k; ms_ptr := None |} ms1)))) (fst (ref_hist w ms1)).
 Proof. exact messages_equal_reference_after_every_message. Qed.
 Print Assumptions C03_message_history_equals_reference_after_every_message.
 
@@ -228,13 +228,57 @@ Print Assumptions C03_message_history_equals_reference_after_every_message.
     reports the same verdict and return values as the specification, but runs on the rejected
     message's dropped branch — its SSTORE never reaches the block state. *)
 Theorem C03_msgs_stale_statedb_refuted :
-  let bad := deliver_hist false {| ms_blk := ex_k0; ms_ptr := None |} ex_msgs in
-  let good := spec_hist ex_k0 ex_msgs in
+  let bad := deliver_hist false true true {| ms_blk := ex_k0; ms_ptr := None |} ex_msgs in
+  let good := spec_hist true ex_k0 ex_msgs in
   snd bad = snd good /\
   snd good = [MRejected; MExecuted [[]; []; [0]; [0]; []; []; []]] /\
   k_stor (fst good) 2 0 = 5 /\ k_stor (ms_blk (fst bad)) 2 0 = 0.
 Proof. exact stale_statedb_refuted. Qed.
 Print Assumptions C03_msgs_stale_statedb_refuted.
+
+(** THE ADMISSION DECISION.  The three tx types are one shape (base fee, tip, fee cap; legacy and
+    access-list: tip = cap = gas price).  With the sender balance checked against TxData.Cost()
+    = gas*feeCap + value ([ante true]; re-extracted from the source, Gen/C03Oblig.v) the ante chain
+    admits a message exactly when go-ethereum's preCheck + buyGas does: the same function of sender
+    code, nonce, balance, tip, fee cap, base fee, gas limit and value — for every message whose gas
+    price / fee cap is not below the base fee ([amounts_nonneg]: tip, gas limit, value are unsigned). *)
+Theorem C03_admission_equals_reference :
+  forall f k w m, weq (world_of k) w -> cap_covers_base m -> amounts_nonneg m ->
+  (ante true f k m = None <-> ref_buy w m = None).
+Proof. exact admission_sim. Qed.
+Print Assumptions C03_admission_equals_reference.
+
+(** When the ante chain compares the FEE CAP itself with the base fee ([floor_check] = true) the
+    admission decision is go-ethereum's for EVERY message: no side condition on the prices. *)
+Theorem C03_admission_exact_with_fee_cap_floor :
+  forall k w m, weq (world_of k) w -> amounts_nonneg m -> (ante true true k m = None <-> ref_buy w m = None).
+Proof. exact admission_exact. Qed.
+Print Assumptions C03_admission_exact_with_fee_cap_floor.
+
+(** Without that side condition the statement is FALSE when the ante chain's "fee cap below base fee"
+    test compares max(baseFee, feeCap) with the base fee ([floor_check] = false: it never fires): a legacy
+    message with gas price 0 is admitted and charged at the base fee; the reference rejects it. *)
+Theorem C03_admission_below_base_fee_refuted :
+  ref_buy (world_of ex_k0) ex_m_lowprice = None /\ ante true true ex_k0 ex_m_lowprice = None /\
+  option_map (fun k1 => option_map ka_bal (k_acct k1 1)) (ante true false ex_k0 ex_m_lowprice) = Some (Some (1000000 - 100000)).
+Proof. exact admission_below_base_fee_refuted. Qed.
+Print Assumptions C03_admission_below_base_fee_refuted.
+
+(** The variant that checks the balance against the EFFECTIVE cost (gas * effective price + value) is
+    REFUTED: a dynamic-fee transfer (fee cap 10 unibi, no tip, gas 21000, value 50000 unibi) from a
+    sender holding 100000 unibi is an invalid message for the reference (insufficient funds for
+    gas * feeCap + value, no effect) and for [ante true]; the variant executes it. *)
+Theorem C03_msgs_effective_cost_admission_refuted :
+  let st0 := {| ms_blk := ex_k_poor; ms_ptr := None |} in
+  let bad := deliver_hist true false true st0 [ex_m_feecap] in
+  snd (ref_hist (world_of ex_k_poor) [ex_m_feecap]) = [MRejected] /\
+  snd (deliver_hist true true true st0 [ex_m_feecap]) = [MRejected] /\
+  (exists rets, snd bad = [MExecuted rets]) /\
+  option_map ka_nonce (k_acct (ms_blk (fst bad)) 1) = Some 1 /\
+  option_map ka_bal (k_acct (ms_blk (fst bad)) 1) = Some (100000 - 21000 - 50000) /\
+  option_map ka_bal (k_acct (ms_blk (fst bad)) 3) = Some 50000.
+Proof. exact effective_cost_admission_refuted. Qed.
+Print Assumptions C03_msgs_effective_cost_admission_refuted.
 
 (** Non-vacuity: that very history (rejected for its gas limit, then an ordinary call) meets the
     hypotheses of the history theorem. *)
